@@ -26,6 +26,13 @@ def run(ctx):
         n, st = s.rsplit('|', 1)
         observed.setdefault(n, set()).add(int(st))
     planted = json.load(open(os.path.join(d2, 'summary.json')))['planted']
+    # the tool under switches this framework does not know (boolean flags of `zlint -h` beyond the known ones): what it prints
+    cli = vlib.build_cli(ctx)
+    d3 = vlib.drive(ctx, exe, 'flagcensus', env={'VERIF_CLI': cli})
+    for s in json.load(open(os.path.join(d3, 'statuses.json'))) or []:
+        n, st = s.rsplit('|', 1)
+        observed.setdefault(n, set()).add(int(st))
+    unknown_flags = json.load(open(os.path.join(d3, 'summary.json')))['unknown_boolean_flags'] or []
     # runtime names (every registered lint gets an event, in the census or not)
     names = sorted(set(observed) | {r['name'] for r in ex['registrations']})
     byname = {r['name']: r for r in ex['registrations']}
@@ -54,7 +61,7 @@ def run(ctx):
                distinct_nontrivial=findings, programs=len(names), exhaustive=True,
                rule='one event per registered lint (all of them): statically emittable statuses of every return path (SSA) + statuses observed on the corpus; '
                     'non-trivial = lints observed with a finding status',
-               samples=[json.loads(lines[0]), json.loads(lines[len(lines) // 2])], planted_inputs=planted,
+               samples=[json.loads(lines[0]), json.loads(lines[len(lines) // 2])], planted_inputs=planted, unknown_tool_flags=unknown_flags,
                trusted_base=['golang.org/x/tools go/packages + ssa'])
     return vlib.finish(ctx, 'model_checking', cov, ASSUME)
 
